@@ -231,9 +231,30 @@ def schema_phase(ctx, run_, rng, cov):
     return len(cases)
 
 
+def run_corpus(ctx):
+    """minimised past failures first (corpus/C01/*.json): each must hold now; a failure is reported under the
+    signature it was found with"""
+    import contextlib
+    import glob
+    import io
+    n = 0
+    d = os.path.join(os.path.dirname(os.path.abspath(__file__)), "..", "..", "corpus", "C01")
+    for f in sorted(glob.glob(os.path.join(d, "*.json"))):
+        rep = json.load(open(f))
+        buf = io.StringIO()
+        with contextlib.redirect_stdout(buf):
+            ok = replay(ctx, rep)
+        n += 1
+        if not ok:
+            ctx.report(rep["signature"], "corpus input %s fails again: %s" % (os.path.basename(f), buf.getvalue()[:300]),
+                       rep["replay"])
+    ctx.coverage["corpus_inputs"] = n
+
+
 def run(ctx):
     _libs()
     IC.quiet()
+    run_corpus(ctx)
     rng = random.Random(ctx.seed * 7919 + 11)
     cov = {"notes": set()}
     t0 = time.time()
